@@ -14,7 +14,7 @@ DRIVABLE_KEX = ['diffie-hellman-group1-sha1', 'diffie-hellman-group14-sha1', 'di
                 'diffie-hellman-group-exchange-sha1', 'diffie-hellman-group-exchange-sha256', 'ecdh-sha2-nistp256', 'ecdh-sha2-nistp384',
                 'ecdh-sha2-nistp521']
 GEX = ['diffie-hellman-group-exchange-sha1', 'diffie-hellman-group-exchange-sha256']
-INVARIANTS = ['ExitDocumented', 'ReportIffHandshake', 'BoundedWaiting', 'FootprintBounded', 'KexReqDiscipline', 'AllClosedAtExit', 'FallbackDiscipline',
+INVARIANTS = ['GranularRule', 'ExitDocumented', 'ReportIffHandshake', 'BoundedWaiting', 'FootprintBounded', 'KexReqDiscipline', 'AllClosedAtExit', 'FallbackDiscipline',
               'ProbesOnlyAfterHandshake', 'GexReportRule', 'NoSizeWhenRefused', 'GexRequestsFixed', 'RsaFanOut']
 
 
@@ -29,7 +29,7 @@ def mc_cfg(servers, faults, cap=38, conc=3, ticks=15, mode='attempts', emit=Fals
     return c
 
 
-def srv_of(cfg, skip_rate, dheat_tables, argv=(), role='server'):
+def srv_of(cfg, skip_rate, dheat_tables, argv=(), role='server', granular=()):
     """Server archetype (SshAudit!srv) of a fake peer configuration and the command line it is audited with."""
     one = any(a in ('-1', '--ssh1', '-12', '-21') for a in argv)
     two = any(a in ('-2', '--ssh2', '-12', '-21') for a in argv)
@@ -52,6 +52,7 @@ def srv_of(cfg, skip_rate, dheat_tables, argv=(), role='server'):
         'openssh': 'OpenSSH' in (cfg.get('banner') or b'').decode('latin-1'),
         'skipRate': bool(skip_rate),
         'role': role, 'proto': proto, 'try': tryv, 'cliTimeout': '-t' in argv or any(a.startswith('--timeout') for a in argv),
+        'granular': [list(r) for r in granular],
     }
 
 
